@@ -161,4 +161,50 @@ theorem defaultNth_spec {σ ι : Type} {next : σ → Option ι × σ} {Inv : σ
         · rw [i1, h2, List.drop_tail]
         · rw [i2, h2, List.drop_tail]
 
+/-! ### Iterators that are not `SplitIterator`s (`Lane`, `LaneMut`) -/
+
+/-- `Refines` without the `split_at` clauses. -/
+structure RefinesNS {σ ι : Type} (ops : IterOps σ ι) (Inv : σ → Prop) (abs : σ → List ι) : Prop where
+  next : NextOk ops.next Inv abs
+  nextBack : BackOk ops.nextBack Inv abs
+  nth : ∀ s n, Inv s → (ops.nth s n).1 = ((abs s).drop n).head? ∧
+    abs (ops.nth s n).2 = (abs s).drop (n + 1) ∧ Inv (ops.nth s n).2
+  len : ∀ s, Inv s → ops.len s = (abs s).length
+  fold : ∀ s, Inv s → ops.fold s = abs s
+  rev : ∀ s, Inv s → ops.rev s = (abs s).reverse
+
+/-- Simulation for split-free histories. -/
+theorem run_refines_ns {σ ι : Type} {ops : IterOps σ ι} {Inv : σ → Prop} {abs : σ → List ι}
+    (R : RefinesNS ops Inv abs) : ∀ (h : Hist), h.noSplit = true → ∀ s : σ, Inv s →
+    run ops h s = run (listOps ι) h (abs s) := by
+  intro h
+  induction h with
+  | drop => intro _ s _; rfl
+  | fold => intro _ s hs; simp [run, R.fold s hs, listOps]
+  | rev => intro _ s hs; simp [run, R.rev s hs, listOps]
+  | next h ih =>
+    intro hn s hs
+    obtain ⟨h1, h2, h3⟩ := R.next s hs
+    simp only [run]
+    rw [h1, ih hn _ h3, h2]
+    rfl
+  | back h ih =>
+    intro hn s hs
+    obtain ⟨h1, h2, h3⟩ := R.nextBack s hs
+    simp only [run]
+    rw [h1, ih hn _ h3, h2]
+    rfl
+  | len h ih =>
+    intro hn s hs
+    simp only [run]
+    rw [R.len s hs, ih hn _ hs]
+    rfl
+  | nth k h ih =>
+    intro hn s hs
+    obtain ⟨h1, h2, h3⟩ := R.nth s k hs
+    simp only [run]
+    rw [h1, ih hn _ h3, h2]
+    rfl
+  | split k l r _ _ => intro hn; simp [Hist.noSplit] at hn
+
 end RtenVerif.Iter
